@@ -6,6 +6,7 @@ import (
 	"io"
 	"math"
 	"math/rand"
+	"reflect"
 	"runtime"
 	"strings"
 	"testing/iotest"
@@ -224,17 +225,23 @@ func runC05(c map[string]interface{}) []Event {
 			e["g"] = encGeom(g, bitsEnc)
 			// re-encode and decode again
 			e["reenc"] = safely(func() {
-				b2, err := wkb.Encode(g, binary.LittleEndian)
-				if err != nil {
-					e["reenc"] = "err"
-					return
+				// re-encoded in either byte order, it decodes to the same geometry again
+				for _, order := range []binary.ByteOrder{binary.BigEndian, binary.LittleEndian} {
+					b2, err := wkb.Encode(g, order)
+					if err != nil {
+						e["reenc"] = "err"
+						return
+					}
+					g2, err := wkb.Decode(b2)
+					if err != nil {
+						e["reenc"] = "err"
+						return
+					}
+					e["g2"] = encGeom(g2, bitsEnc)
+					if !reflect.DeepEqual(e["g2"], e["g"]) {
+						return
+					}
 				}
-				g2, err := wkb.Decode(b2)
-				if err != nil {
-					e["reenc"] = "err"
-					return
-				}
-				e["g2"] = encGeom(g2, bitsEnc)
 			})
 		}
 		// the same bytes through wkb.Read from readers that hand out less than they are asked for (one byte at a time, half of
